@@ -66,11 +66,21 @@ type hist struct {
 
 func zi(i int) string { return fmt.Sprint(i) }
 
+// numbers are printed in hexadecimal: Coq interprets a hexadecimal literal several
+// times faster than a decimal one, and the data file is dominated by literals
 func snapZ(ux coin.UxOut) string {
 	h := ux.SnapshotHash()
-	return new(big.Int).SetBytes(h[:]).String()
+	return "0x" + new(big.Int).SetBytes(h[:]).Text(16)
 }
-func hashZ(h cipher.SHA256) string { return new(big.Int).SetBytes(h[:]).String() }
+func hashZ(h cipher.SHA256) string { return "0x" + new(big.Int).SetBytes(h[:]).Text(16) }
+
+// ZH prints a uint64 (hexadecimal above 999)
+func ZH(u uint64) string {
+	if u < 1000 {
+		return fmt.Sprint(u)
+	}
+	return fmt.Sprintf("0x%x", u)
+}
 
 func (h *hist) addr(a cipher.Address) int {
 	if i := h.w.AddrIndex(a); i > 0 {
@@ -92,7 +102,7 @@ func (h *hist) txnTerm(bh coin.BlockHeader, t coin.Transaction, withSnap bool) s
 		if withSnap {
 			sn = snapZ(ux)
 		}
-		outs[i] = fmt.Sprintf("mk_txout %d %d %d %d %s", h.ux.of(ux.Hash()), h.addr(ux.Body.Address), ux.Body.Coins, ux.Body.Hours, sn)
+		outs[i] = fmt.Sprintf("mk_txout %d %d %s %s %s", h.ux.of(ux.Hash()), h.addr(ux.Body.Address), ZH(ux.Body.Coins), ZH(ux.Body.Hours), sn)
 	}
 	return fmt.Sprintf("mk_txn %d %s %s", h.tx.of(t.Hash()), List(ins), List(outs))
 }
@@ -106,7 +116,7 @@ func (h *hist) blockTerm(sb coin.SignedBlock) string {
 		}
 		h.spent = append(h.spent, t.In...)
 	}
-	return fmt.Sprintf("mk_block %d %d %d %s %s", h.bk.of(sb.Block.HashHeader()), sb.Block.Head.BkSeq, sb.Block.Head.Time,
+	return fmt.Sprintf("mk_block %d %d %s %s %s", h.bk.of(sb.Block.HashHeader()), sb.Block.Head.BkSeq, ZH(sb.Block.Head.Time),
 		hashZ(sb.Block.Head.UxHash), List(ts))
 }
 
@@ -205,7 +215,7 @@ func (h *hist) observe() (string, error) {
 		h.dist.Add("balance:ok")
 		rows := make([]string, len(bps))
 		for i, bp := range bps {
-			rows[i] = Tuple(Z(bp.Confirmed.Coins), Z(bp.Confirmed.Hours), Z(bp.Predicted.Coins), Z(bp.Predicted.Hours))
+			rows[i] = Tuple(ZH(bp.Confirmed.Coins), ZH(bp.Confirmed.Hours), ZH(bp.Predicted.Coins), ZH(bp.Predicted.Hours))
 		}
 		bals = append(bals, Tuple(List(ls), "inr "+List(rows)))
 	}
@@ -239,8 +249,8 @@ func (h *hist) observe() (string, error) {
 		if o.SpentTxnID != (cipher.SHA256{}) {
 			st = h.tx.of(o.SpentTxnID)
 		}
-		uxq = append(uxq, Tuple(zi(h.ux.of(id)), Some(Tuple(zi(h.ux.of(o.Out.Hash())), Z(o.Out.Head.Time), Z(o.Out.Head.BkSeq), zi(src),
-			zi(h.addr(o.Out.Body.Address)), Z(o.Out.Body.Coins), Z(o.Out.Body.Hours), zi(st), Z(o.SpentBlockSeq)))))
+		uxq = append(uxq, Tuple(zi(h.ux.of(id)), Some(Tuple(zi(h.ux.of(o.Out.Hash())), ZH(o.Out.Head.Time), ZH(o.Out.Head.BkSeq), zi(src),
+			zi(h.addr(o.Out.Body.Address)), ZH(o.Out.Body.Coins), ZH(o.Out.Body.Hours), zi(st), ZH(o.SpentBlockSeq)))))
 	}
 	// every output an address received
 	var aouts []string
@@ -316,7 +326,7 @@ func (h *hist) observe() (string, error) {
 			if !x.conf {
 				sq = 0
 			}
-			rs[i] = Tuple(zi(x.id), B(x.conf), Z(sq))
+			rs[i] = Tuple(zi(x.id), B(x.conf), ZH(sq))
 		}
 		as := make([]string, len(q.addrs))
 		for i, a := range q.addrs {
@@ -342,9 +352,9 @@ func (h *hist) observe() (string, error) {
 			return "", err
 		}
 		if sb == nil {
-			bseq = append(bseq, Tuple(Z(k), "None"))
+			bseq = append(bseq, Tuple(ZH(k), "None"))
 		} else {
-			bseq = append(bseq, Tuple(Z(k), Some(bid(*sb))))
+			bseq = append(bseq, Tuple(ZH(k), Some(bid(*sb))))
 		}
 	}
 	{
@@ -354,21 +364,21 @@ func (h *hist) observe() (string, error) {
 		if err != nil {
 			return "", err
 		}
-		brange = append(brange, Tuple(Z(lo), Z(hi), blist(bs)))
+		brange = append(brange, Tuple(ZH(lo), ZH(hi), blist(bs)))
 		num := uint64(r.Intn(int(headSeq) + 4))
 		bs, err = v.GetLastBlocks(num)
 		h.nq++
 		if err != nil {
 			return "", err
 		}
-		blast = append(blast, Tuple(Z(num), blist(bs)))
+		blast = append(blast, Tuple(ZH(num), blist(bs)))
 		sq, ct := uint64(r.Intn(int(headSeq)+2)), uint64(r.Intn(6))
 		bs, err = v.GetSignedBlocksSince(sq, ct)
 		h.nq++
 		if err != nil {
 			return "", err
 		}
-		bsince = append(bsince, Tuple(Z(sq), Z(ct), blist(bs)))
+		bsince = append(bsince, Tuple(ZH(sq), ZH(ct), blist(bs)))
 	}
 	return fmt.Sprintf("mk_obs %d %d %s %s %s %s %s %s %s %s %s", headSeq, cnt, List(uns), List(bals), List(uxq), List(aouts), List(txq),
 		List(bseq), List(brange), List(blast), List(bsince)), nil
